@@ -715,6 +715,9 @@ registry! {
     // option / result
     Option<u8>; Option<u64>; Option<i32>; Option<bool>; Option<String>; Option<Vec<u8>>; Option<()>; Option<f64>; Option<Option<u8>>;
     Option<Tagged<7, u8>>; Option<&'static str>; Option<Duration>; Option<SocketAddr>; Option<ByteVec>;
+    // nil-capable values behind wrappers that are not themselves nil (a tag between two Options keeps them apart)
+    Option<Tagged<1, Option<u8>>>; Vec<Option<Tagged<7, Option<bool>>>>; Tagged<2, Option<Tagged<3, Option<u16>>>>; (Option<Tagged<9, Option<String>>>, u8);
+    BTreeMap<u8, Option<Tagged<4, Option<i8>>>>; Result<Option<Tagged<5, Option<u8>>>, Tagged<6, Option<u8>>>;
     Result<u8, String>; Result<(), Int>; Result<Vec<u16>, Option<bool>>; Result<Result<u8, i8>, u64>;
     // sequences
     Vec<u8>; Vec<u64>; Vec<i16>; Vec<bool>; Vec<String>; Vec<Option<u8>>; Vec<Vec<u8>>; Vec<Duration>; Vec<f32>; Vec<(u8, i8)>;
@@ -771,4 +774,25 @@ fn run(w: &[&str], enc: bool) -> String {
     let r = f(w[1]);
     arena_clear();
     r
+}
+
+/// `tencpath <PathBuf|BoxPath|RefPath|VecPathBuf> <hex>`: a path made from RAW bytes (not necessarily UTF-8) through
+/// `OsString::from_vec`, encoded with `to_vec` next to `minicbor::len`: `<hex> len=<n>` or `err <class> len=<n>`.
+pub fn run_encpath(w: &[&str]) -> String {
+    use std::os::unix::ffi::OsStringExt;
+    if w.len() != 2 { return "bad-op".into() }
+    let raw = match unhex(w[1]) { Some(b) => b, None => return "bad-op".into() };
+    let pb = PathBuf::from(std::ffi::OsString::from_vec(raw));
+    fn go<T: minicbor::Encode<()> + minicbor::CborLen<()>>(x: &T) -> String {
+        let n = minicbor::len(x);
+        match minicbor::to_vec(x) { Ok(b) => format!("{} len={}", hex(&b), n), Err(e) => format!("err {} len={}", eclass(&e), n) }
+    }
+    match w[0] {
+        "PathBuf" => go(&pb),
+        "BoxPath" => go(&pb.clone().into_boxed_path()),
+        "RefPath" => go(&pb.as_path()),
+        "VecPathBuf" => go(&vec![PathBuf::from("/etc/hosts"), pb]),
+        "OptPathBuf" => go(&Some(pb)),
+        _ => "bad-op".into()
+    }
 }
